@@ -903,6 +903,34 @@ func c08RunCase(rt *rapid.T, rec *verifx.Recorder, env *c08Env, judge func(r *c0
 			}
 			actions = append(pre, actions...)
 		}
+		if rapid.IntRange(0, 5).Draw(rt, "directedOwnDeleteThenList") == 0 {
+			// One case in six opens with a transaction that deletes a key lying in a folder and then lists a prefix
+			// above it: whether the folder is still in its result depends on the OTHER keys of that folder, which a
+			// plain write removes (or, for a folder emptied by the transaction, adds to) before the commit.
+			del := []int{0, 1, 2}[rapid.IntRange(0, 2).Draw(rt, "dDeleted")]  // a/k1, a/k2, a/s/k3
+			oth := []int{0, 1, 2}[rapid.IntRange(0, 2).Draw(rt, "dOtherKey")] // the other key of the folder
+			if oth == del {
+				oth = (del + 1) % 3
+			}
+			otherExists := rapid.Bool().Draw(rt, "dOtherKeyExists")
+			pre := []c08Action{{Kind: 0, Key: del, Val: 0}}
+			if otherExists {
+				pre = append(pre, c08Action{Kind: 0, Key: oth, Val: 1})
+			}
+			pre = append(pre, c08Action{Kind: 9},
+				c08Action{Kind: 2, Slot: 0, Script: []c08Action{{Kind: 5, Key: del}, {Kind: 6, Pfx: rapid.IntRange(0, 1).Draw(rt, "dListPrefix"), After: 0, Limit: 0}}},
+				c08Action{Kind: 12, Slot: 0}, c08Action{Kind: 12, Slot: 0})
+			if otherExists {
+				pre = append(pre, c08Action{Kind: 1, Key: oth}) // the folder loses its last other key
+			} else {
+				pre = append(pre, c08Action{Kind: 0, Key: oth, Val: 2}) // the folder the transaction emptied gets a key
+			}
+			if rapid.Bool().Draw(rt, "dQuiesceBeforeCommit") {
+				pre = append(pre, c08Action{Kind: 9})
+			}
+			pre = append(pre, c08Action{Kind: 12, Slot: 0}, c08Action{Kind: 9})
+			actions = append(pre, actions...)
+		}
 		env.caseNo++
 		r := &c08Run{rt: rt, env: env, b: env.b, prefix: fmt.Sprintf("c%d/", env.caseNo), caughtUpOnly: caughtUpOnly}
 		b := env.b
